@@ -28,3 +28,10 @@ job('qptr.registry.base', ['C17'], 'u_qsbrptr', 'proofs/qptr/registry.c', entry=
 job('qptr.registry.asserted', ['C17'], 'u_qsbr_api', 'proofs/qptr/registry.c', cfgs=(DEBUG,), floor=3,
     irfacts=[(r'^unodb::qsbr_per_thread::quiescent\(\)', 'active_ptrs.empty()'), (r'^unodb::qsbr_per_thread::qsbr_pause\(\)', 'active_ptrs.empty()'), (r'^unodb::qsbr_per_thread::qsbr_resume\(\)', 'active_ptrs.empty()')],
     under_contract=['qsbr_per_thread::quiescent / qsbr_pause / qsbr_resume: the registry-empty assertion is present (static IR fact, supporting)'])
+PTQ = r'^unodb::qsbr_per_thread::'
+for fn, rx in (('quiescent', r'quiescent\(\)'), ('pause', r'qsbr_pause\(\)'), ('resume', r'qsbr_resume\(\)')):
+    job('qptr.body.' + fn, ['C17'], 'u_qsbr_api', 'proofs/qptr/bodies.c', defines=['FN_' + fn.upper()], cfgs=(DEBUG,), roots={'FN': PTQ + rx},
+        stubs={'MS_EMPTY': MS + r'empty\(\) const', 'QSBR_INSTANCE': r'^unodb::qsbr::instance\(\)', 'ADVANCE?': PTQ + r'advance_last_seen_epoch\(', 'EXEC_PREV?': PTQ + r'execute_previous_requests\(',
+               'REG_STATS?': r'^unodb::qsbr::register_quiescent_states_per_thread_between_epoch_changes\('},
+        unwind=200, floor=3, timeout=300, under_contract=['qsbr_per_thread::%s: registry-empty assertion fires iff the registry is non-empty, before any effect' % rx.split('\\')[0]],
+        trusted=['std::unordered_multiset::empty replaced by its contract over the ghost registry size', 'all other callees are recording stubs; the protocol assertions of these functions are not decided here'])
